@@ -36,8 +36,9 @@ MANIFEST = dict(
 
 VARIANTS = ["rel"]
 
-CHUNKS = {"quick": (1, 5000), "thorough": (16, 6000)}   # (chunks, programs per chunk); the chunk id perturbs the seed
+CHUNKS = {"quick": (1, 5000), "thorough": (40, 10000)}   # (chunks, programs per chunk); the chunk id perturbs the seed
 KF_STALE = "objective-stale-trial-point"
+KF_HUGE = "feasibility-at-rounding-level"
 
 
 def _build_driver():
@@ -562,15 +563,20 @@ def run(tier, replay=None):
     for ch, l in genbad[:1]:
         r.violation("generator", {"kind": "generator defect: constructed optimum is not an exact KKT point (defect of the check)",
                                   "detail": l, "case": byid.get((ch, re.search(r"id=(\S+)", l).group(1)), "")[:4000]}, no_input=True)
-    # defect candidate (not gating unless listed in known_findings.json)
+    # defect candidates of the unchanged code (not gating unless listed in known_findings.json; see notes/C04.md)
     candidates = []
-    if cands:
-        payload = {"kind": "the reported objective (and eta/residuals) are those of the last trial point of a failed stage-2 line "
-                           "search while m_x is the previous iterate; visible against the property's relative tolerance only when "
-                           "every term of the objective vanishes at the optimum",
-                   "cases": [l[:1500] for _, l in cands[:3]], "count": len(cands)}
-        if any(f.get("fingerprint") == KF_STALE for f in r.kf):
-            r.violation("stale", payload, fingerprint=KF_STALE)
+    for fp, kind in ((KF_STALE, "the reported objective (and eta/residuals) are those of the last trial point of a failed stage-2 line "
+                                "search while m_x is the previous iterate; visible against the property's relative tolerance only when "
+                                "every term of the objective vanishes at the optimum"),
+                     (KF_HUGE, "`converged` is reported at a point of astronomically large norm (degenerate program whose optimal "
+                               "face is unbounded): the residual tests pass in double arithmetic, the true constraint deviation exceeds "
+                               "the property's absolute tolerance but is below 2^-44 of the row's own terms")):
+        mine = [l for _, l in cands if l.startswith("CAND " + fp)]
+        if not mine:
+            continue
+        payload = {"kind": kind, "fingerprint": fp, "cases": [l[:2500] for l in sorted(mine, key=len)[:3]], "count": len(mine)}
+        if any(f.get("fingerprint") == fp for f in r.kf):
+            r.violation(fp, payload, fingerprint=fp)
         else:
             candidates.append(payload)
 
